@@ -10,12 +10,17 @@ LEVEL = 'proof'
 RULE = ('per checked operation the full small-scope argument space INCLUDING the invalid part: reshape targets with entries -2..4 (length 1..3), '
         'transpose axes from [-dim-1, dim] incl. duplicates, moveaxis/swapaxes/expand_dims axes in [-dim-2, dim+1], broadcast_to / add / concatenate / '
         'matmul operand-shape pairs (compatible and not), pad width lists of every length 0..2*dim+1, tile/repeat/roll/sum arguments with bad axes; '
-        'pipelines of depth 2-3 whose first or second stage fails; NDEBUG build and ASan+UBSan+assert build. non-trivial = NumPy raises, or the result differs from the source')
+        'transpose axes tuples that are too short / too long, expand_dims axis tuples with repeated / out-of-range entries, repeat with one count per entry (lists of every length 1..extent+1, all axes incl. invalid), '
+        'dot / inner / vecdot / tensordot(n) operand-shape pairs; pipelines of depth 2-3 in which any stage (first, middle or last) fails, incl. stages fed with a maybe-typed operand '
+        '(repeat, tile, concatenate, broadcast_to, transpose after a stage that may be Nothing); the unary and equal-rank binary operations again on FIXED-DIM sources (shape container std::array); '
+        'NDEBUG build and ASan+UBSan+assert build. non-trivial = NumPy raises, or the result differs from the source')
 EXHAUSTIVE = {'quick': True, 'thorough': True}
 ANCHORS = {'NmVerif.Checked.shapeReshape': 'index::shape_reshape / count_negative_reshape (index/reshape.hpp)', 'NmVerif.Checked.normalizeAxis': 'index::normalize_axis',
-           'NmVerif.Checked.Pipe.denote': 'has_value checks of the view constructors + eval (nmtools_maybe plumbing)'}
+           'NmVerif.Checked.Pipe.denote': 'has_value checks of the view constructors + eval (nmtools_maybe plumbing)',
+           'NmVerif.Checked.transposeChecked / swapaxesChecked / expandDimsChecked / repeatChecked / repeatListChecked / concatenateChecked':
+               'run-time argument validation of view::transpose, swapaxes, expand_dims, repeat, concatenate (as repaired by fixes/C15-*.diff; transpose: proposed only) in front of the value models of C03 / C04'}
 MANIFEST = dict(
-    text='Proof + exploration: Lean theorems that reshape returns Nothing exactly on invalid targets (more than one -1, zero/negative extent, mismatching or non-dividing element count) and that an accepted reshape has positive extents and the source element count; normalize_axis accepts exactly [-ndim, ndim); an empty optional propagates through pipelines of any depth. Every checked operation (reshape, transpose, moveaxis, swapaxes, expand_dims, broadcast_to, add, concatenate, matmul, pad, tile, repeat, roll, sum, depth-2/3 pipelines) is run over its full small-scope argument space INCLUDING the invalid part against NumPy raise/no-raise, in an NDEBUG build and an assert+ASan+UBSan build; 7 classes of unchecked arguments are known findings.',
+    text='Proof + exploration: Lean theorems that reshape returns Nothing exactly on invalid targets (more than one -1, zero/negative extent, mismatching or non-dividing element count) and that an accepted reshape has positive extents and the source element count; normalize_axis accepts exactly [-ndim, ndim); an empty optional propagates through pipelines of any depth; for transpose, swapaxes, expand_dims, repeat (scalar count and one count per entry) and concatenate a view exists EXACTLY on the arguments NumPy accepts (permutation of the axes / axes in range / no repeated axis / count list as long as the axis / equal ranks and off-axis extents) and is then the value model of C03 / C04. Every checked operation (reshape, transpose, moveaxis, swapaxes, expand_dims, broadcast_to, add, concatenate, matmul, pad, tile, repeat, roll, sum, dot, inner, vecdot, tensordot, depth-2/3 pipelines; dynamic and fixed-dim sources) is run over its full small-scope argument space INCLUDING the invalid part against NumPy raise/no-raise, in an NDEBUG build and an assert+ASan+UBSan build; swapaxes, expand_dims, repeat, concatenate and matmul refuse invalid run-time arguments since the repairs fixes/C15-*.diff; 6 classes remain known findings (transpose axes, reduction axis, contraction extents of inner/vecdot/tensordot, tensordot axes beyond the rank, a single broadcast repeat count, matmul with a 1-d operand).',
     note='Lean kernel + propext/Classical.choice/Quot.sound (+ Mathlib.Tactic.Ring in the proof file). Validity of the other operations is decided by the NumPy oracle, the value part by the models of C03/C04/C06; the process-level outcome (abort, out-of-range exception) is observed, not modelled.',
     technique='Lean 4 iff-theorems for the checked argument predicates + Option-monad propagation by induction on a pipeline AST; differential run against NumPy over valid and invalid arguments under sanitizers')
 ASSUMPTIONS = ['NumPy 2.x raise / no-raise decision is the reference for validity (the property text names it)']
@@ -23,7 +28,9 @@ PARTIAL = []
 
 
 def harness_specs(tier):
-    return [dict(name='h_c15', src='h_c15.cpp', flavour='fast'), dict(name='h_c15_san', src='h_c15.cpp', flavour='san-dbg')]
+    return [dict(name='h_c15', src='h_c15.cpp', flavour='fast'), dict(name='h_c15_san', src='h_c15.cpp', flavour='san-dbg'),
+            dict(name='h_c15_fd', src='h_c15_fd.cpp', flavour='fast'), dict(name='h_c15_fd_san', src='h_c15_fd.cpp', flavour='san-dbg'),
+            dict(name='h_c15_na', src='h_c15_na.cpp', flavour='fast'), dict(name='h_c15_na_san', src='h_c15_na.cpp', flavour='san-dbg')]
 
 
 def arr(s, base=0):
@@ -42,9 +49,28 @@ def ora(f):
         return 'nothing'
 
 
+def ora_la(f):
+    """linear-algebra oracle: a 0-d result is a number in nmtools (not representable as `ok shape=…`): skipped (None)"""
+    try:
+        r = np.asarray(f())
+    except Exception:
+        return 'nothing'
+    return None if r.ndim == 0 else ans(r)
+
+
+def ora_arr(f):
+    """as `ora`; a 0-d result (reduction of a 1-d array) is a number in nmtools: no oracle"""
+    try:
+        r = np.asarray(f())
+    except Exception:
+        return 'nothing'
+    return None if r.ndim == 0 else ans(r)
+
+
 def args_of(req):
+    """(operation, arguments); the `fd_` prefix (fixed-dim source, same operation) is dropped"""
     p = req.split(' ')
-    return p[0], dict(kv.split('=') for kv in p[1:])
+    return (p[0][3:] if p[0].startswith('fd_') else p[0]), dict(kv.split('=') for kv in p[1:])
 
 
 def ints(s):
@@ -57,11 +83,13 @@ def _dim(a):
 
 
 def k_transpose_invalid_axes(c):
+    if k_transpose_in_pipeline(c):
+        return True
     op, a = args_of(c.req)
     if op != 'transpose':
         return False
     d = _dim(a); ax = ints(a['axes'])
-    if any(x < -d or x >= d for x in ax):
+    if len(ax) != d or any(x < -d or x >= d for x in ax):
         return True
     return len({x % d for x in ax}) != d
 
@@ -73,7 +101,10 @@ def k_swapaxes_invalid_axis(c):
 
 def k_expand_dims_invalid_axis(c):
     op, a = args_of(c.req)
-    return op == 'expand_dims' and any(x < -_dim(a) - 1 or x > _dim(a) for x in ints(a['axes']))
+    if op != 'expand_dims':
+        return False
+    ax = ints(a['axes']); n = _dim(a) + len(ax)
+    return any(x < -n or x >= n for x in ax) or len({x % n for x in ax}) != len(ax)
 
 
 def k_sum_invalid_axis(c):
@@ -83,14 +114,37 @@ def k_sum_invalid_axis(c):
 
 def k_repeat_negative_or_invalid_axis(c):
     op, a = args_of(c.req)
-    return op == 'repeat' and (int(a['axis']) < -_dim(a) or int(a['axis']) >= _dim(a))
+    if op == 'pipe_reshape_repeat':          # repeat of a reshaped source: the axis refers to the rank of `to`
+        d = len(ints(a['to']))
+        return c.oracle == 'nothing' and not (int(a['axis']) >= -d and int(a['axis']) < d) and _reshape_ok(a)
+    if op != 'repeat':
+        return False
+    d = _dim(a); ax = int(a['axis'])
+    if ax < -d or ax >= d:
+        return True
+    # one count per entry: a count list whose length is not the extent of the axis
+    return 'counts' in a and len(ints(a['counts'])) not in (1, ints(a['shape'])[ax % d])
+
+
+def _reshape_ok(a):
+    try:
+        np.arange(prod(ints(a['shape']))).reshape(ints(a['to']))
+        return all(x >= -1 for x in ints(a['to']))
+    except Exception:
+        return False
 
 
 def k_concatenate_unchecked(c):
     op, a = args_of(c.req)
-    if op != 'concatenate':
+    if op == 'pipe_reshape_concat':          # the first operand is the reshaped source
+        if not _reshape_ok(a):
+            return False
+        s1 = list(np.arange(prod(ints(a['shape']))).reshape(ints(a['to'])).shape)
+    elif op in ('concatenate', 'pipe_concat_reshape'):
+        s1 = ints(a['shape'])
+    else:
         return False
-    s1, s2, ax = ints(a['shape']), ints(a['shape2']), int(a['axis'])
+    s2, ax = ints(a['shape2']), int(a['axis'])
     if ax < -len(s1) or ax >= len(s1) or len(s1) != len(s2):
         return True
     ax = ax % len(s1)
@@ -102,31 +156,113 @@ def k_matmul_unchecked(c):
     if op != 'matmul':
         return False
     s1, s2 = ints(a['shape']), ints(a['shape2'])
-    return len(s1) == 1 or len(s2) == 1 or c.oracle == 'nothing'
+    if len(s1) != 1 and len(s2) != 1:
+        return False
+    # a 1-d operand: NumPy promotes it; view::matmul computes the shape but every element access leaves the operand
+    # (C16 matmul.v1-1d-operand); a mismatching contraction extent is refused (Nothing) like for any other operand
+    try:
+        np.matmul(np.zeros(s1), np.zeros(s2))
+        return True
+    except Exception:
+        return False
+
+
+def k_transpose_in_pipeline(c):
+    """transpose with invalid explicit axes as the middle stage of a pipeline (same call site as transpose_invalid_axes)"""
+    op, a = args_of(c.req)
+    if op != 'pipe_bcast_transpose_flatten':
+        return False
+    d = len(ints(a['to'])); ax = ints(a['axes'])
+    try:
+        np.broadcast_to(np.zeros(ints(a['shape'])), ints(a['to']))
+    except Exception:
+        return False
+    return len(ax) != d or any(x < -d or x >= d for x in ax) or len({x % d for x in ax}) != d
+
+
+def k_contraction_extent_broadcast(c):
+    """inner / vecdot / tensordot(n): contracted extents that differ where one of them is 1 (NumPy: not aligned) — the
+    product of the re-arranged operands is broadcast over the contracted axes instead of being refused"""
+    op, a = args_of(c.req)
+    if op not in ('inner', 'vecdot', 'tensordot'):
+        return False
+    s1, s2 = ints(a['shape']), ints(a['shape2'])
+    if op == 'tensordot':
+        n = int(a['axes'])
+        if n > len(s1) or n > len(s2):
+            return False
+        prs = [(s1[len(s1) - n + i], s2[i]) for i in range(n)]
+    else:
+        prs = [(s1[-1], s2[-1])]
+    return any(x != y for x, y in prs) and all(x == y or x == 1 or y == 1 for x, y in prs)
+
+
+def k_tensordot_axes_beyond_rank(c):
+    op, a = args_of(c.req)
+    return op == 'tensordot' and (int(a['axes']) > len(ints(a['shape'])) or int(a['axes']) > len(ints(a['shape2'])))
+
+
+def k_repeat_single_count_broadcast(c):
+    """np.repeat(a, [r], axis) broadcasts a one-element count list over an axis of any extent; nmtools takes the list as
+    one count per entry (result extent = sum of the list)"""
+    op, a = args_of(c.req)
+    if op != 'repeat' or 'counts' not in a:
+        return False
+    d = _dim(a); ax = int(a['axis'])
+    return -d <= ax < d and len(ints(a['counts'])) == 1 and ints(a['shape'])[ax % d] != 1
 
 
 KNOWN_PREDICATES = {
-    'transpose_invalid_axes': k_transpose_invalid_axes, 'swapaxes_invalid_axis': k_swapaxes_invalid_axis,
-    'expand_dims_invalid_axis': k_expand_dims_invalid_axis, 'sum_invalid_axis': k_sum_invalid_axis,
-    'repeat_negative_or_invalid_axis': k_repeat_negative_or_invalid_axis, 'concatenate_unchecked': k_concatenate_unchecked,
-    'matmul_unchecked': k_matmul_unchecked,
+    'transpose_invalid_axes': k_transpose_invalid_axes, 'sum_invalid_axis': k_sum_invalid_axis,
+    'matmul_1d_operand': k_matmul_unchecked,
+    'contraction_extent_broadcast': k_contraction_extent_broadcast, 'tensordot_axes_beyond_rank': k_tensordot_axes_beyond_rank,
+    'repeat_single_count_broadcast': k_repeat_single_count_broadcast,
 }
 _san_budget = {}
 
 
 MODELLED = {'reshape': 'v_reshape', 'pipe_reshape_transpose': 'v_pipe_reshape_transpose', 'broadcast_to': 'v_broadcast_to', 'add': 'v_add',
-            'pad': 'v_pad', 'tile': 'v_tile', 'roll': 'v_roll', 'where3': 'v_where3'}
+            'pad': 'v_pad', 'tile': 'v_tile', 'roll': 'v_roll', 'where3': 'v_where3',
+            # run-time argument validation mirrored in Index/CheckedOps.lean (theorems X_isSome_iff_valid)
+            'transpose': 'v_transpose', 'swapaxes': 'v_swapaxes', 'expand_dims': 'v_expand_dims', 'repeat': 'v_repeat',
+            'concatenate': 'v_concatenate'}
+# operations whose invalid arguments are NOT yet refused by the code (open known findings): there the checked model does
+# not mirror the code, so those cases are off the model's domain (the NumPy oracle judges, the known-finding class matches)
+UNREPAIRED = ('transpose',)
 
 
-def both(req, oracle, tags, nontrivial=True, model=False, dom=True):
+FD_OPS = {'reshape', 'transpose', 'moveaxis', 'swapaxes', 'expand_dims', 'broadcast_to', 'pad', 'tile', 'repeat', 'roll', 'sum',
+          'pipe_reshape_transpose', 'concatenate', 'matmul'}
+LA_OPS = {'dot', 'inner', 'vecdot', 'tensordot'}
+
+
+def both(req, oracle, tags, nontrivial=True, model=False, dom=True, fd=False):
+    """one request on the NDEBUG build and on the assert+sanitizer build; `fd=True`: additionally on a fixed-dim source
+    (shape container std::array) — same request with the `fd_` prefix, same model answer, same oracle"""
     op = req.split(' ')[0]
+    h = 'h_c15_fd' if op in LA_OPS else 'h_c15'
     mreq = None
     if op in MODELLED and ' to=[]' not in req:
         model = True
         mreq = MODELLED[op] + req[len(op):]
-    c0 = Case(req, 'h_c15', oracle=oracle, model=model, dom=dom, nontrivial=nontrivial, mreq=mreq,
-              tags=list(tags) + ['h_c15', 'expect-nothing' if oracle == 'nothing' else 'expect-value'])
+        if op in UNREPAIRED and oracle == 'nothing':
+            dom = False
+        if op == 'repeat' and ' counts=' in req and oracle != 'nothing' and len(ints(args_of(req)[1]['counts'])) == 1:
+            dom = False      # a single count is broadcast by NumPy, taken as one-count-per-entry by nmtools (known finding)
+    c0 = Case(req, h, oracle=oracle, model=model, dom=dom, nontrivial=nontrivial, mreq=mreq,
+              tags=list(tags) + [h, 'expect-nothing' if oracle == 'nothing' else 'expect-value'])
     yield c0
+    if fd and op in FD_OPS:
+        cf = Case('fd_' + req, 'h_c15_fd', oracle=oracle, model=model, dom=dom, nontrivial=nontrivial, mreq=mreq,
+                  tags=list(tags) + ['h_c15_fd', 'fixed-dim', 'expect-nothing' if oracle == 'nothing' else 'expect-value'])
+        yield cf
+        cls = [k for k, f in KNOWN_PREDICATES.items() if f(cf)]
+        n = _san_budget.get(('fd', cls[0]), 0) if cls else 0
+        if not cls or n < 6:
+            if cls:
+                _san_budget[('fd', cls[0])] = n + 1
+            yield Case('fd_' + req, 'h_c15_fd_san', oracle=oracle, model=model, dom=dom, nontrivial=nontrivial, mreq=mreq,
+                       tags=list(tags) + ['h_c15_fd_san', 'fixed-dim', 'expect-nothing' if oracle == 'nothing' else 'expect-value'])
     # sanitizer + assert build: every case outside the known-defect classes; inside them a bounded sample per class
     # (each of those aborts the process; 15 per class keeps the quick tier fast)
     cls = [k for k, f in KNOWN_PREDICATES.items() if f(c0)]
@@ -135,12 +271,54 @@ def both(req, oracle, tags, nontrivial=True, model=False, dom=True):
         if n >= 15:
             return
         _san_budget[cls[0]] = n + 1
-    yield Case(req, 'h_c15_san', oracle=oracle, model=model, dom=dom, nontrivial=nontrivial, mreq=mreq,
-               tags=list(tags) + ['h_c15_san', 'expect-nothing' if oracle == 'nothing' else 'expect-value'])
+    hs = h + '_san'
+    yield Case(req, hs, oracle=oracle, model=model, dom=dom, nontrivial=nontrivial, mreq=mreq,
+               tags=list(tags) + [hs, 'expect-nothing' if oracle == 'nothing' else 'expect-value'])
+
+
+def gen_axis_kinds(tier):
+    """index::normalize_axis over the integer KIND of the axis argument (signed / unsigned scalar, lists of signed / unsigned
+    entries in vector / std::array / static_vector), and moveaxis / roll / expand_dims with unsigned axis lists: the unsigned
+    branches have a range test of their own (seeded change C15-c: `<` -> `<=` accepted axis == ndim for unsigned lists only)"""
+    def na(axes, nd):
+        if all(-nd <= a < nd for a in axes):
+            return 'ok ' + fmt([a % nd for a in axes])
+        return 'nothing'
+    hs = ('h_c15_na', 'h_c15_na_san')
+    for nd in (1, 2, 3, 4):
+        for a in range(-nd - 2, nd + 3):
+            for k in (('i', 'ii') if a < 0 else ('i', 'ii', 'u')):
+                o = ('ok %d' % (a % nd)) if -nd <= a < nd else 'nothing'
+                for h in hs:
+                    yield Case('normalize_axis kind=%s axis=%d ndim=%d' % (k, a, nd), h, oracle=o, model=False, tags=['normalize_axis', 'kind=' + k, 'axis==ndim' if a == nd else 'other'])
+        lists = [list(t) for L in (1, 2, 3) for t in itertools.product(range(-nd - 1, nd + 2), repeat=L)]
+        if tier == 'quick':
+            lists = [l for l in lists if len(l) < 3 or (sum(l) + nd) % 4 == 0]
+        for l in lists:
+            neg = any(x < 0 for x in l)
+            for t in (('i', 'l') if neg else ('i', 'l', 'u', 'u32')):
+                for c in ('vec', 'arr', 'sv'):
+                    h = hs[(len(l) + nd + len(c)) % 2]
+                    yield Case('normalize_axis kind=%s:%s axis=%s ndim=%d' % (t, c, fmt(l), nd), h, oracle=na(l, nd), model=False,
+                               tags=['normalize_axis', 'kind=%s:%s' % (t, c), 'axis==ndim' if nd in l else 'other'])
+    for s in ([2, 3], [2, 1, 3], [4]):
+        d = len(s)
+        for t in ('i', 'u', 'u32'):
+            for c in ('vec', 'arr'):
+                for p in range(0, d + 2):
+                    for q in range(0, d + 2):
+                        yield Case('moveaxis kind=%s:%s shape=%s src=%d dst=%d' % (t, c, fmt(s), p, q), hs[(p + q) % 2], oracle=ora(lambda: np.moveaxis(arr(s), p, q)),
+                                   model=False, tags=['moveaxis', 'axis-kind=' + t])
+                    yield Case('roll kind=%s:%s shape=%s shift=1 axis=%d' % (t, c, fmt(s), p), hs[p % 2], oracle=ora(lambda: np.roll(arr(s), [1], [p])),
+                               model=False, tags=['roll', 'axis-kind=' + t])
+                for ax in itertools.chain(([p] for p in range(0, d + 3)), ([p, q] for p in range(0, d + 3) for q in range(0, d + 3))):
+                    yield Case('expand_dims kind=%s:%s shape=%s axis=%s' % (t, c, fmt(s), fmt(ax)), hs[sum(ax) % 2], oracle=ora(lambda: np.expand_dims(arr(s), tuple(ax))),
+                               model=False, tags=['expand_dims', 'axis-kind=' + t])
 
 
 def gen(tier, rng):
     _san_budget.clear()
+    yield from gen_axis_kinds(tier)
     R, E = (3, 3) if tier == 'quick' else (3, 4)
     srcs = [s for s in shapes(R, E, min_rank=1)]
     small = [s for s in srcs if prod(s) <= 12] if tier == 'quick' else srcs
@@ -152,39 +330,62 @@ def gen(tier, rng):
             for t in itertools.product(ents, repeat=L):
                 if tier == 'quick' and L == 3 and (hash((tuple(s), t)) % 3):
                     continue
-                yield from both('reshape shape=%s to=%s' % (fmt(s), fmt(t)), 'nothing' if any(x < -1 for x in t) else ora(lambda: arr(s).reshape(t)), ['reshape'])
-    for s in pick(srcs, 14 if tier == 'quick' else 60):
+                yield from both('reshape shape=%s to=%s' % (fmt(s), fmt(t)), 'nothing' if any(x < -1 for x in t) else ora(lambda: arr(s).reshape(t)), ['reshape'],
+                                fd=(L < 3 and hash((tuple(s), t)) % 4 == 0))
+    for ns, s in enumerate(pick(srcs, 14 if tier == 'quick' else 60)):
         d = len(s)
+        fdsrc = (ns % 2 == 0) or tier != 'quick'      # every second source also as a fixed-dim array
         # transpose: all axis tuples of length d over [-d-1, d]
         rngax = list(range(-d - 1, d + 1))
         tuples = list(itertools.product(rngax, repeat=d))
         for ax in pick(tuples, 60 if tier == 'quick' else 400):
-            yield from both('transpose shape=%s axes=%s' % (fmt(s), fmt(ax)), ora(lambda: np.transpose(arr(s), ax)), ['transpose'])
+            yield from both('transpose shape=%s axes=%s' % (fmt(s), fmt(ax)), ora(lambda: np.transpose(arr(s), ax)), ['transpose'], fd=fdsrc)
+        # transpose with too few / too many axes
+        for L in {max(d - 1, 1), d + 1} - {d}:
+            for ax in pick(list(itertools.product(range(-1, d + 1), repeat=L)), 6):
+                yield from both('transpose shape=%s axes=%s' % (fmt(s), fmt(ax)), ora(lambda: np.transpose(arr(s), ax)), ['transpose', 'axes-length'], fd=fdsrc)
         for p, q in itertools.product(range(-d - 2, d + 2), repeat=2):
-            yield from both('swapaxes shape=%s a1=%d a2=%d' % (fmt(s), p, q), ora(lambda: np.swapaxes(arr(s), p, q)), ['swapaxes'])
-            yield from both('moveaxis shape=%s src=%d dst=%d' % (fmt(s), p, q), ora(lambda: np.moveaxis(arr(s), p, q)), ['moveaxis'])
+            yield from both('swapaxes shape=%s a1=%d a2=%d' % (fmt(s), p, q), ora(lambda: np.swapaxes(arr(s), p, q)), ['swapaxes'], fd=fdsrc)
+            yield from both('moveaxis shape=%s src=%d dst=%d' % (fmt(s), p, q), ora(lambda: np.moveaxis(arr(s), p, q)), ['moveaxis'], fd=fdsrc and (p + q) % 2 == 0)
         for p in range(-d - 3, d + 3):
-            yield from both('expand_dims shape=%s axes=%d' % (fmt(s), p), ora(lambda: np.expand_dims(arr(s), p)), ['expand_dims'])
-            yield from both('sum shape=%s axis=%d' % (fmt(s), p), ora(lambda: arr(s).sum(axis=p)), ['sum'])
-            yield from both('roll shape=%s shift=1 axis=%d' % (fmt(s), p), ora(lambda: np.roll(arr(s), 1, p)), ['roll'])
-            yield from both('repeat shape=%s repeats=2 axis=%d' % (fmt(s), p), ora(lambda: np.repeat(arr(s), 2, p)), ['repeat'])
+            yield from both('expand_dims shape=%s axes=%d' % (fmt(s), p), ora(lambda: np.expand_dims(arr(s), p)), ['expand_dims'], fd=fdsrc)
+            yield from both('sum shape=%s axis=%d' % (fmt(s), p), ora(lambda: arr(s).sum(axis=p)), ['sum'], fd=fdsrc and d >= 2)
+            yield from both('roll shape=%s shift=1 axis=%d' % (fmt(s), p), ora(lambda: np.roll(arr(s), 1, p)), ['roll'], fd=fdsrc)
+            yield from both('repeat shape=%s repeats=2 axis=%d' % (fmt(s), p), ora(lambda: np.repeat(arr(s), 2, p)), ['repeat'], fd=fdsrc)
+        # expand_dims with an axis tuple: repeated and out-of-range entries (n = d + 2)
+        for ax in pick(list(itertools.product(range(-d - 3, d + 3), repeat=2)), 14 if tier == 'quick' else 60):
+            yield from both('expand_dims shape=%s axes=%s' % (fmt(s), fmt(ax)), ora(lambda: np.expand_dims(arr(s), ax)), ['expand_dims', 'axis-tuple'], fd=fdsrc)
+        # repeat with one count per entry of the axis: count lists of every length 1..extent+1, axes incl. invalid ones
+        for p in range(-d - 1, d + 1):
+            for L in range(1, max(s) + 2):
+                cnt = [(k + L) % 3 for k in range(L)]
+                yield from both('repeat shape=%s counts=%s axis=%d' % (fmt(s), fmt(cnt), p), ora(lambda: np.repeat(arr(s), cnt, p)), ['repeat', 'count-list'],
+                                fd=fdsrc and L % 2 == 1)
         for L in range(0, 2 * d + 2):
             w = [(k % 2) + (1 if k == 0 else 0) for k in range(L)]
             def padf():
                 if L != 2 * d:
                     raise ValueError
                 return np.pad(arr(s), [(w[k], w[d + k]) for k in range(d)], constant_values=-1)
-            yield from both('pad shape=%s width=%s' % (fmt(s), fmt(w)), ora(padf), ['pad'])
+            yield from both('pad shape=%s width=%s' % (fmt(s), fmt(w)), ora(padf), ['pad'], fd=fdsrc)
         for reps in [[2], [1, 2], [2, 1, 1], [1, 1, 1, 2]]:
-            yield from both('tile shape=%s reps=%s' % (fmt(s), fmt(reps)), ora(lambda: np.tile(arr(s), reps)), ['tile'])
+            yield from both('tile shape=%s reps=%s' % (fmt(s), fmt(reps)), ora(lambda: np.tile(arr(s), reps)), ['tile'], fd=fdsrc)
     # binary: all pairs of small shapes
     pairs = list(itertools.product([s for s in shapes(3, 3, min_rank=1) if prod(s) <= 9], repeat=2))
     for s1, s2 in pick(pairs, 250 if tier == 'quick' else 2000):
         yield from both('broadcast_to shape=%s to=%s' % (fmt(s1), fmt(s2)), ora(lambda: np.broadcast_to(arr(s1), s2)), ['broadcast_to'])
         yield from both('add shape=%s shape2=%s' % (fmt(s1), fmt(s2)), ora(lambda: arr(s1) + arr(s2, 1000)), ['add'])
-        yield from both('matmul shape=%s shape2=%s' % (fmt(s1), fmt(s2)), ora(lambda: np.matmul(arr(s1), arr(s2, 1))), ['matmul'])
+        eqr = len(s1) == len(s2)                      # fixed-dim operands: equal ranks only (others do not compile)
+        yield from both('matmul shape=%s shape2=%s' % (fmt(s1), fmt(s2)), ora(lambda: np.matmul(arr(s1), arr(s2, 1))), ['matmul'], fd=eqr and len(s1) >= 2)
         for ax in range(-len(s1) - 1, len(s1) + 1):
-            yield from both('concatenate shape=%s shape2=%s axis=%d' % (fmt(s1), fmt(s2), ax), ora(lambda: np.concatenate([arr(s1), arr(s2, 1000)], axis=ax)), ['concatenate'])
+            yield from both('concatenate shape=%s shape2=%s axis=%d' % (fmt(s1), fmt(s2), ax), ora(lambda: np.concatenate([arr(s1), arr(s2, 1000)], axis=ax)), ['concatenate'], fd=eqr)
+    # linear-algebra views: operand mismatches (NumPy raises) next to matching operands
+    for s1, s2 in pick(pairs, 140 if tier == 'quick' else 1500):
+        yield from both('dot shape=%s shape2=%s' % (fmt(s1), fmt(s2)), ora_la(lambda: np.dot(arr(s1), arr(s2, 1))), ['dot'])
+        yield from both('inner shape=%s shape2=%s' % (fmt(s1), fmt(s2)), ora_la(lambda: np.inner(arr(s1), arr(s2, 1))), ['inner'])
+        yield from both('vecdot shape=%s shape2=%s' % (fmt(s1), fmt(s2)), ora_la(lambda: np.vecdot(arr(s1), arr(s2, 1))), ['vecdot'])
+        for n in (1, 2):
+            yield from both('tensordot shape=%s shape2=%s axes=%d' % (fmt(s1), fmt(s2), n), ora_la(lambda: np.tensordot(arr(s1), arr(s2, 1), n)), ['tensordot'])
     # three operands (variadic broadcast): every triple of small shapes where at least one pair is incompatible, plus compatible ones
     tri = [s for s in shapes(2, 3, min_rank=1) if prod(s) <= 6] + [[1, 1, 2], [2, 1, 1]]
     triples = list(itertools.product(tri, repeat=3))
@@ -199,6 +400,34 @@ def gen(tier, rng):
             yield from both('pipe_reshape_transpose shape=%s to=%s' % (fmt(s), fmt(t)), ora(lambda: arr(s).reshape(t).T), ['pipeline'])
             for ax in (0, 1):
                 yield from both('pipe_reshape_sum shape=%s to=%s axis=%d' % (fmt(s), fmt(t), ax), ora(lambda: arr(s).reshape(t).sum(axis=ax)), ['pipeline'])
+    # depth 3 / stages fed with a maybe-typed operand: any stage may be the one that fails
+    for s in pick(small, 8 if tier == 'quick' else 20):
+        for t in itertools.product([-1, 2, 3, 4], repeat=2):
+            for t2 in ([-1], [2, -1], [5]):
+                yield from both('pipe_reshape_transpose_reshape shape=%s to=%s to2=%s' % (fmt(s), fmt(t), fmt(t2)),
+                                ora(lambda: arr(s).reshape(t).T.reshape(t2)), ['pipeline', 'depth3'])
+            for ax in (-3, -1, 0, 2):
+                yield from both('pipe_reshape_repeat shape=%s to=%s axis=%d' % (fmt(s), fmt(t), ax), ora(lambda: np.repeat(arr(s).reshape(t), 2, ax)), ['pipeline', 'maybe-operand'])
+            for reps in ([2], [1, 2, 1]):
+                yield from both('pipe_reshape_tile shape=%s to=%s reps=%s' % (fmt(s), fmt(t), fmt(reps)), ora(lambda: np.tile(arr(s).reshape(t), reps)), ['pipeline', 'maybe-operand'])
+            for s2 in ([2, 2], [1, 3]):
+                for ax in (0, 1, 2):
+                    yield from both('pipe_reshape_concat shape=%s to=%s shape2=%s axis=%d' % (fmt(s), fmt(t), fmt(s2), ax),
+                                    ora(lambda: np.concatenate([arr(s).reshape(t), arr(s2, 1000)], axis=ax)), ['pipeline', 'maybe-operand'])
+            for t2, s2 in (([2, 2, 3], [3]), ([3, 2], [2]), ([2, 3], [2, 2])):
+                yield from both('pipe_reshape_bcast_add shape=%s to=%s to2=%s shape2=%s' % (fmt(s), fmt(t), fmt(t2), fmt(s2)),
+                                ora(lambda: np.broadcast_to(arr(s).reshape(t), t2) + arr(s2, 1000)), ['pipeline', 'depth3'])
+    for s1, s2 in pick(pairs, 60 if tier == 'quick' else 400):
+        for t in ([-1], [2, -1]):
+            yield from both('pipe_add_reshape_sum shape=%s shape2=%s to=%s' % (fmt(s1), fmt(s2), fmt(t)),
+                            ora_arr(lambda: (arr(s1) + arr(s2, 1000)).reshape(t).sum(axis=0)), ['pipeline', 'depth3'])
+        for ax in (0, 1):
+            for t in ([-1], [3, -1]):
+                yield from both('pipe_concat_reshape shape=%s shape2=%s axis=%d to=%s' % (fmt(s1), fmt(s2), ax, fmt(t)),
+                                ora(lambda: np.concatenate([arr(s1), arr(s2, 1000)], axis=ax).reshape(t)), ['pipeline', 'depth3'])
+        for ax in ([1, 0], [0, 0], [0, 1, 2], [2, 0, 1], [0, 3, 1]):
+            yield from both('pipe_bcast_transpose_flatten shape=%s to=%s axes=%s' % (fmt(s1), fmt(s2), fmt(ax)),
+                            ora(lambda: np.transpose(np.broadcast_to(arr(s1), s2), ax).reshape(-1)), ['pipeline', 'depth3'])
     for s1, s2 in pick(pairs, 120 if tier == 'quick' else 600):
         for t in ([3, 3], [2, 3], [2, 1, 3]):
             yield from both('pipe_bcast_add_flatten shape=%s to=%s shape2=%s' % (fmt(s1), fmt(t), fmt(s2)),
